@@ -35,6 +35,18 @@ def option_edges(ctx, fn, value_root):
     return None
 
 
+def flat(rs):
+    """Expand `or(a;b)` roots (unwrap_or forms) into their alternatives, so `to.unwrap_or(sender)` == `if let Some(to) = to {to} else {sender}`."""
+    out = set()
+    for r in rs:
+        m = re.match(r"^or\((.*);(.*)\)$", r)
+        if m and m.group(1).count("(") == m.group(1).count(")"):
+            out |= flat(set(m.group(1).split("|"))) | flat(set(m.group(2).split("|")))
+        else:
+            out.add(r)
+    return out
+
+
 def target_asset_lemma(ctx, inst):
     """SwapOperation::get_target_asset_info returns the operation's ask asset."""
     P = ctx.P
@@ -98,28 +110,50 @@ def run(ctx):
         return
     addv = P.val_call(acc, body, adds[0][0])
     msgs = addv[4][1]
-    # decompose: base collect + mutations
-    muts = [x for x in common.walk(msgs) if x[0] == "mut"]
-    base = [x for x in common.walk(msgs) if x[0] == "call" and isinstance(x[3], str) and common.last_seg(x[3]) == "collect"]
-    if len(base) != 1:
-        r1.fail("C11.R1:hop-list", acc.path, common.span_of_block_term(acc, adds[0][0]), "response messages are not `collected hop list (+ pushes)`: unrecognised-idiom")
+    # decompose the message list: hop messages (one per operation, in order) followed by pushes
+    vb = common.vec_build(P, acc, msgs)
+    if vb is None:
+        r1.fail("C11.R1:hop-list", acc.path, common.span_of_block_term(acc, adds[0][0]), "response messages are not a list built by collect / push: unrecognised-idiom")
         return
-    ads, kind, src = common.iter_chain(base[0][4][0])
-    if [a for a, _ in ads] != ["map"] or kind != "into_iter" or set(ctx.roots(src)) != {P_(acc, ops_i)}:
-        r1.fail("C11.R1:hop-order", acc.path, common.span_of_block_term(acc, base[0][2]),
-                "hop messages are not built one per operation in route order (adaptors %s over %s)" % ([a for a, _ in ads], sorted(ctx.roots(src))))
-    else:
-        r1.site("hop list = operations.into_iter().map(hop message).collect() at %s" % common.span_of_block_term(acc, base[0][2]))
-    mut_sites = {(m[3], m[4]) for m in muts}
-    pushes = []
-    for (mb, mi) in sorted(mut_sites):
-        consumer = common.borrow_consumer(P, acc, mb, mi)
-        if consumer is None or not generic_path(consumer[1] or "").endswith("Vec::push"):
-            r1.fail("C11.R1:message-list-mutation", acc.path, common.span_of_block_term(acc, mb), "the message list is modified by %s (only a push of the assertion is expected): unrecognised-idiom" % (consumer[1] if consumer else "?"))
+    base_v, ops_ = vb
+    loop_pushes = [(op, cv_, lp) for op, cv_, lp in ops_ if lp]
+    tail_ops = [(op, cv_, lp) for op, cv_, lp in ops_ if not lp]
+    hop_anchor = None       # block after which the hop list is complete
+    if base_v[0] == "call" and isinstance(base_v[3], str) and common.last_seg(base_v[3]) == "collect" and not loop_pushes:
+        ads, kind, src = common.iter_chain(base_v[4][0])
+        if [a for a, _ in ads] != ["map"] or kind != "into_iter" or set(ctx.roots(src)) != {P_(acc, ops_i)}:
+            r1.fail("C11.R1:hop-order", acc.path, common.span_of_block_term(acc, base_v[2]),
+                    "hop messages are not built one per operation in route order (adaptors %s over %s)" % ([a for a, _ in ads], sorted(ctx.roots(src))))
         else:
-            pushes.append(consumer[0])
+            r1.site("hop list = operations.into_iter().map(hop message).collect() at %s" % common.span_of_block_term(acc, base_v[2]))
+        hop_anchor = ("block", base_v[2])
+    elif common.is_empty_vec_base(base_v) and len(loop_pushes) == 1 and loop_pushes[0][0] == "push":
+        pcv = loop_pushes[0][1]
+        lps_ = [l for l in common.loops(P, acc) if l["is_loop"] and body.edge_dominates(l["some_edge"], pcv[2])]
+        okl = False
+        if len(lps_) == 1:
+            ads, kind, src = common.iter_chain(lps_[0]["iter"])
+            lb_ = body.reachable_from(lps_[0]["some_edge"][1], cut_edges=(lps_[0]["none_edge"],))
+            conds_ = [c for c in common.control_conditions(P, acc, pcv[2]) if c["sw"] in lb_ and c["sw"] != lps_[0]["switch"]]
+            conds_ = [c for c in conds_ if not (c["cond"][0] == "discr" and c["allowed"] in (["Continue"], ["Ok"]))]
+            if [a for a, _ in ads] in ([], ["enumerate"]) and kind == "into_iter" and set(ctx.roots(src)) == {P_(acc, ops_i)} and not conds_:
+                okl = True
+                hop_anchor = ("edge", lps_[0]["none_edge"])
+        if not okl:
+            r1.fail("C11.R1:hop-order", acc.path, common.span_of_block_term(acc, pcv[2]), "hop messages are not pushed one per operation, unconditionally, in route order")
+        else:
+            r1.site("hop list = one push per operation in a loop over operations.into_iter() at %s" % common.span_of_block_term(acc, pcv[2]))
+    else:
+        r1.fail("C11.R1:hop-list", acc.path, common.span_of_block_term(acc, adds[0][0]), "response messages are not `hop list (collected or pushed per operation) + pushes`: unrecognised-idiom")
+        return
+    pushes = []
+    for op, cv_, lp in tail_ops:
+        if op != "push":
+            r1.fail("C11.R1:message-list-mutation", acc.path, common.span_of_block_term(acc, cv_[2]), "the message list is modified by %s (only a push of the assertion is expected): unrecognised-idiom" % op)
+        else:
+            pushes.append(cv_[2])
     if len(pushes) != 1:
-        r1.fail("C11.R1:push-count", acc.path, acc.span, "%d pushes onto the message list, expected exactly one (the assertion)" % len(pushes))
+        r1.fail("C11.R1:push-count", acc.path, acc.span, "%d pushes onto the message list after the hops, expected exactly one (the assertion)" % len(pushes))
     else:
         pb = pushes[0]
         pv = P.val_call(acc, body, pb)
@@ -135,10 +169,11 @@ def run(ctx):
                 if b in body.reachable_from(some_e[1], cut_blocks=(pb,)):
                     bad = True
                     r1.fail("C11.R1:push-skippable", acc.path, common.span_of_block_term(acc, b), "with minimum_receive given, a success exit is reachable without appending the assertion")
-            # the push comes after the collect (the hop list is complete)
-            if not body.block_dominates(base[0][2], pb):
+            # the push comes after the hop list is complete
+            after = body.block_dominates(hop_anchor[1], pb) if hop_anchor and hop_anchor[0] == "block" else (hop_anchor is not None and body.edge_dominates(hop_anchor[1], pb))
+            if not after:
                 bad = True
-                r1.fail("C11.R1:push-order", acc.path, common.span_of_block_term(acc, pb), "the assertion is appended before the hop list is built")
+                r1.fail("C11.R1:push-order", acc.path, common.span_of_block_term(acc, pb), "the assertion is appended before the hop list is complete")
             # add_messages consumes the list after the push
             if pb not in body.reachable_from(0) or adds[0][0] not in body.reachable_from(pb):
                 bad = True
@@ -174,7 +209,7 @@ def run(ctx):
         r2.fail("C11.R2:prev-origin", acc.path, aspan.replace("!x", ""), "prev_balance ⊢ %s, expected a balance query made in this call" % sorted(pr_roots))
     else:
         q = prev[0]
-        qa, qacct = set(ctx.roots(q[4][0])), set(ctx.roots(q[4][3]))
+        qa, qacct = set(ctx.roots(q[4][0])), flat(set(ctx.roots(q[4][3])))
         if qa != asset_roots:
             r2.fail("C11.R2:prev-asset", acc.path, common.span_of_block_term(acc, q[2]), "prev_balance is sampled for asset %s, the assertion names %s" % (sorted(qa), sorted(asset_roots)))
         elif qacct != recipient:
@@ -186,7 +221,7 @@ def run(ctx):
         r2.fail("C11.R2:minimum", acc.path, aspan.replace("!x", ""), "minimum_receive ⊢ %s, expected the caller's minimum_receive" % sorted(mn))
     else:
         r2.site("minimum_receive ⊢ parameter")
-    rc = set(ctx.roots(f["receiver"]))
+    rc = flat(set(ctx.roots(f["receiver"])))
     if rc != recipient:
         r2.fail("C11.R2:receiver", acc.path, aspan.replace("!x", ""), "receiver ⊢ %s, expected to-or-sender %s" % (sorted(rc), sorted(recipient)))
     else:
@@ -194,11 +229,14 @@ def run(ctx):
     # the last hop's recipient is the same value
     hops = [(fn, v, span) for (fn, b, i, adt, var, v, span) in common.message_sites(P) if adt + "::" + var == "haloswap::router::ExecuteMsg::ExecuteSwapOperation"]
     for fn, v, span in hops:
-        to_roots = set(ctx.roots(dict(v[3])["to"]))
+        tov = dict(v[3])["to"]
+        if fn.path != acc.path and not (fn.kind == "closure" and fn.parent == acc.path):
+            _, tov = common.lift_value(P, fn, tov)
+        to_roots = set(ctx.roots(tov))
         somes = {r for r in to_roots if r.startswith("A:std::option::Option::Some{0=")}
         inner = set()
         for s_ in somes:
-            inner |= set(s_[len("A:std::option::Option::Some{0="):-1].split("|"))
+            inner |= flat(set(s_[len("A:std::option::Option::Some{0="):-1].split("|")))
         if inner != recipient:
             r2.fail("C11.R2:hop-recipient", fn.path, span.replace("!x", ""), "the hop message's recipient ⊢ %s differs from the assertion's receiver %s" % (sorted(inner), sorted(recipient)))
         else:
